@@ -35,6 +35,13 @@ Readings (where the property text leaves room):
   say False); the oracle never judges a call that omits update_ids.
 * Fermata.ref / Note.fermata / Note.beam / Beam.notes are not among "(ties, slurs, tuplets, grace chains, neighbouring time points)", the
   explicit list of the property, and are not remapped by the code (a copy keeps pointing at the original's fermata / beam): not judged.
+* signatures and clefs (round 6): "copies of the original's segments" - a TimeSignature / KeySignature / Clef that starts inside a visited
+  segment must be in force at its shifted time in the unfolded part (clause `signatures`: the code may leave the copy out when the previous
+  object of the class says the same, with ALL fields of the object - octave change of a clef included, fixes/C09-9).  Whether the signature
+  in force at the START of a visited segment (no object starting there) must be restored after a jump back is the proposed open finding
+  `C09/signatures-at-start` (see PARTIAL); the clause is dormant until the coordinator accepts it.
+* unfold_part_alignment (round 6): judged only for an alignment the function accepts (at least one "match" / "deletion" entry, each with a
+  score_id); what it writes into the caller's alignment is compared with the model, not judged (the property does not speak about it).
 * segment ids: the property does not speak about them; that they are `chr(65 + i)` is compared with the model (`ids`,
   `segstr`), because three places of the code order segments by the string order of their ids (Props/C09Many).
 """
@@ -60,7 +67,8 @@ import partitura.utils.generic  # noqa: F401,E402
 
 PROPERTY = "C09"
 DRIVER = "drv_c09"
-PROPS = ["PartituraModel.Props.C09", "PartituraModel.Props.C09Ext", "PartituraModel.Props.C09Many", "PartituraModel.Props.C09Entry"]
+PROPS = ["PartituraModel.Props.C09", "PartituraModel.Props.C09Ext", "PartituraModel.Props.C09Many", "PartituraModel.Props.C09Entry",
+         "PartituraModel.Props.C09Compose", "PartituraModel.Props.C09Align", "PartituraModel.Props.C09Sig"]
 TRUSTED = [
     "Python dict insertion order; str comparison = lexicographic on code points, `in` = substring, list.sort stable, "
     "list(set(x)).sort() = the sorted distinct elements (Model/UnfoldIds.lean: pyLt, pyContains, insStr, insStrStable); that the "
@@ -80,7 +88,13 @@ TRUSTED = [
     "representative is trusted, the `entry …` streams compare the result on every generated case",
     "deepcopy of a Score (the Score branch of unfold_part_maximal / minimal) is modelled as the identity on the abstract parts",
     "`notes_tied` reads the first referential attribute of a note as tie_prev (the order of GenericNote._ref_attrs, read live by this "
-    "module); np.mean / == / argmin in unfold_part_alignment are modelled as count, equality, first minimum (alignPick)",
+    "module); np.mean / == / argmin in unfold_part_alignment are modelled as count, equality, first minimum (alignPick); the labels that "
+    "count, the KeyError, the suffix written into the caller's alignment and when it is suppressed (Model/UnfoldAlign.lean) are "
+    "regenerated on every run by CALLING the live function on probe alignments (Gen/C09Align.lean, harness/translate_c09.py "
+    "gen_c09align; 8 probed labels): that the probes are representative is trusted, the `entry alignx` stream compares part and "
+    "alignment on every generated case",
+    "signature_in_force assumes the object list follows the timeline (TimeOrdered): it is read that way (ordered_objects: time points "
+    "in order, the order create_variant_part meets the objects) and re-checked on every case (`object_lists_not_in_time_order` = 0)",
     "that a real part is an instance of a layout family of the theorems (chainLayout, mvLayout, dcFineLayout, dcCodaLayout, dsCodaLayout) is "
     "decided twice, by the model (`fam` request: equality with the family's layout plus every hypothesis of the layout theorem) and by "
     "family_of() in this module from the musical description; the two answers are compared on every case, not proved equal",
@@ -103,12 +117,24 @@ PARTIAL = [
     "entry points: unfold_part_maximal_sound / ids_are_visit_numbers / unfolding_never_misses_a_segment / maximal_minimal_single_path are "
     "end-to-end and unconditional; totality of all entry points is proved for repeat-only parts (entry_points_total_on_repeats) and for "
     "parts without structure (unfold_without_structure), elsewhere it follows from a successful get_paths only; "
-    "the shape of the maximal / minimal path is proved through the entry points only for r disjoint simple repeats "
-    "(unfold_part_maximal_simple_repeats, iter_unfolded_parts_count); for the volta and navigation families it is proved for get_paths "
-    "(Props/C09Ext) and composes with unfold_part_maximal_is by hand; unfold_part_alignment's choice (alignPick) is compared only",
+    "the shape of the maximal / minimal path is proved through the entry points for r disjoint simple repeats "
+    "(unfold_part_maximal_simple_repeats, iter_unfolded_parts_count) and, round 6, for one repeat with k brackets carrying 1..N and for "
+    "D.C. al Fine / D.C. al Coda / D.S. al Coda (Props/C09Compose: unfold_part_maximal_voltas, unfold_part_dacapo_al_fine, ..., "
+    "with the general unfold_part_maximal_of_path / _minimal_of_path / iter_unfolded_parts_of_paths); "
+    "unfold_part_alignment is proved to return the FIRST shortest best-covering part of iter_unfolded_parts(update_ids=True) and to fail "
+    "only without a usable id (Props/C09Align) - relative to the TRUSTED reading of np.mean / == / argmin",
     "length_sum assumes a part well formed for its segmentation (no copied object reaches beyond its segment, something ends at the end of the "
     "last visited segment); otherwise the code keeps the overhanging end and the model mirrors it",
-    "signatures and clefs are outside copies_per_visit (copied only when different from the previous one; mirrored by sigSkip and compared)",
+    "signatures and clefs (copied only when different from the previous one, sigSkip): signature_in_force proves that every time / key "
+    "signature / clef object that STARTS INSIDE a visited segment is in force at its shifted time (its copy, or the latest object of "
+    "its class before it says the same; oracle clause `signatures`).  NOT restored by the code: the signature in force at the START of a "
+    "visited segment when no signature object starts there - after a jump back the segment stands under whatever the previously copied "
+    "segment left behind (|: 4/4 ... 3/4 :| plays its second pass of the 4/4 bars under 3/4; same for key signatures and clefs).  The "
+    "division at a segment start was repaired in fixes/C09-5; the analogous repair for signatures needs copies of objects from OUTSIDE the "
+    "visited segment, which every theorem about `variant` excludes - proposed as OPEN finding `C09/signatures-at-start` (witness "
+    "corpus/C09/signature_change_inside_repeat.json, Lean `example` in Props/C09Sig, oracle clause dormant until the entry is in "
+    "known_findings.json).  Clefs: the code compares with the previous clef of ANY staff, so it copies more than needed, never less when "
+    "there is at most one clef per (time, staff); since fixes/C09-9 the octave change is compared as well",
     "ending numbers >= 10 are outside the model (Layout.supported): the code cuts 8 characters off '<n>_Volta_<ID>' and then fails",
     "navigation marks: the maximal path is proved for D.C. al Fine, D.C. al Coda, D.S. al Coda (segno after the start) over symbolic times and "
     "checked by the independent oracle for these and for D.C., D.S., D.S. al Fine, D.C./D.S. before the end of the part; other arrangements of "
@@ -140,7 +166,10 @@ RULE = ("parts from gen_score.random_part_desc (3-10 bars, ties over barlines, s
         "800 visits); 15-25 % of the parts are built with read-only views interleaved (gen_score `warm`) and 12-15 % with an edit "
         "history (a mark removed, the part unfolded, the mark put back: `hist`); 30 % of the parts get an ID SHAPE (round 5): ids 'm<bar>-<k>', chains a / a-1 / a-1-1, "
         "numbers, ids containing the separator, notes without id, duplicate ids; every policy carries an `omit` mask (the entry point is "
-        "called without update_ids and / or ignore_leaps); alignments with left-out, deleted and foreign ids; "
+        "called without update_ids and / or ignore_leaps); alignments with left-out, deleted and foreign ids; round 6: 20 (quick) / "
+        "200 (thorough) more parts unfolded by an alignment in six modes (plain / no id containing the suffix, so the function rewrites the "
+        "caller's list / further labels with and without score_id / a counted entry without score_id / no counted entry / raw ids of the "
+        "folded part); clefs with octave changes; "
         "plus the six unfold fixtures of tests/data/musicxml "
         "and corpus/C09.  distinct = distinct (segment table, policy flags); non-trivial = at least one repeat, ending or mark")
 LEVEL_TEXT = ("Lean theorems about the executable model of segment construction, path enumeration and segment copying: for every "
@@ -154,6 +183,10 @@ LEVEL_TEXT = ("Lean theorems about the executable model of segment construction,
               "literals are regenerated from the live code; end-to-end theorems for a call of unfold_part_maximal and for the ids "
               "(<id>-<visit number> for every shape of id; pairwise different ids even for duplicate originals) with no side condition; "
               "every segment table tiles the timeline (positive, contiguous, disjoint). "
+              "Round 6: the maximal / minimal unfolding RETURNED by the entry points for the bracket family and D.C. al Fine / D.C. al Coda / "
+              "D.S. al Coda; unfold_part_alignment as a whole (ids read, first shortest best-covering variant of iter_unfolded_parts, what "
+              "it writes into the caller's alignment, idempotent; literals regenerated by calling the live function); signatures and clefs "
+              "of a visited segment are in force at their shifted times for every part and path (signature_in_force). "
               "Tied to partitura by running the model and the real unfold functions on the same generated parts and comparing segment "
               "tables (as numbers and as id strings), ids, family membership, path lists and every copied object; an independent oracle "
               "re-checks the property clauses (incl. the playing order, computed from the notation alone in units of time, of parts "
@@ -403,6 +436,7 @@ def gen_case(rng, big=False):
         pols.append({"pol": "score", "upd": rng.random() < 0.5, "il": rng.random() < 0.5, "pick": [0, 0]})
     if rng.random() < 0.08:
         pols.append({"pol": "align", "upd": True, "il": True, "pick": [rng.random(), rng.random()]})
+        pols[-1]["am"] = (pols[-1]["pick"][0] * 7919.0) % 1.0   # round 6: what is done to the alignment (derived: the stream of cases is unchanged)
     if rng.random() < 0.15:
         d["warm"] = rng.choice([1, 2, 4, 8, 16, 31, 64, 95])  # read-only views interleaved with the construction (gen_score.build_part)
     out = {"k": "gen", "part": d, "pols": pols, "prereg": rng.random() < 0.15}
@@ -684,6 +718,12 @@ def _cases(rng, tier):
             yield shape_case(rng, "nestvolta")
         else:
             yield gen_case(rng, big=(tier != "quick" and rng.random() < 0.2))
+    # round 6: parts unfolded by an alignment (unfold_part_alignment as a whole); AFTER everything else, so that the cases above
+    # are the ones of the earlier rounds
+    for i in range({"quick": 20, "thorough": 200, "search": 300}.get(tier, 20)):
+        d = gen_case(rng)
+        d["pols"] = [{"pol": "align", "upd": True, "il": True, "pick": [rng.random(), rng.random()], "am": rng.random()}]
+        yield d
 
 
 # ------------------------------------------------------------------------------ building and reading the real objects
@@ -828,7 +868,9 @@ def payload(o):
     if k == 21:
         return [_code(o.fifths), _code(o.mode)]
     if k == 22:
-        return [_code(o.sign), _code(o.line), _code(o.staff)]
+        # (round 6: the octave change belongs to the clef - fixes/C09-9: the code compared sign, line and staff only)
+        return [_code(o.sign), _code(o.line), _code(o.staff),
+                99 if getattr(o, "octave_change", None) is None else _code(o.octave_change)]
     if k == 30:
         return [1 if (o.ref is None or o.ref == "right") else 0]
     return []
@@ -1130,7 +1172,81 @@ def oracle_variant(tagname, part, orig_objs, orig_ids, u, segtab, path, upd):
             break
     if pts and (pts[0].prev is not None or pts[-1].next is not None):
         fails.append("refs-closed: %s: first/last time point has a neighbour outside the part" % tagname)
+    # -- signatures and clefs (round 6, Props/C09Sig.signature_in_force): a TimeSignature / KeySignature / Clef that starts inside a
+    #    visited segment is in force at its shifted time in the unfolded part - the code may leave its copy out only when the
+    #    previous one says the same.  Judged where the original has one signature per (class, time) and one clef per (staff, time).
+    def sigval(o):
+        if isinstance(o, S.TimeSignature):
+            return ("TimeSignature", None, (o.beats, o.beat_type))
+        if isinstance(o, S.KeySignature):
+            return ("KeySignature", None, (o.fifths, o.mode))
+        return ("Clef", o.staff, (o.sign, o.line, o.octave_change))
+    osigs = [o for o in orig_objs if isinstance(o, (S.TimeSignature, S.KeySignature, S.Clef))]
+    slots = Counter(sigval(o)[:2] + (o.start.t,) for o in osigs)
+    usigs = defaultdict(list)
+    for cls in (S.TimeSignature, S.KeySignature, S.Clef):
+        for o in u.iter_all(cls):
+            k_, st_, val_ = sigval(o)
+            usigs[(k_, st_)].append((o.start.t, val_))
+    done = False
+    for vi, (sid, s, e, o_) in enumerate(visits):
+        for o in osigs:
+            if not (s <= o.start.t < e) or slots[sigval(o)[:2] + (o.start.t,)] != 1:
+                continue
+            k_, st_, val_ = sigval(o)
+            t = o.start.t - s + o_
+            cands = [(tt, v) for tt, v in usigs[(k_, st_)] if tt <= t]
+            latest = max((tt for tt, _ in cands), default=None)
+            if latest is None or val_ not in [v for tt, v in cands if tt == latest]:
+                fails.append("signatures: %s: the %s %r at %d of the original (visit %d of segment %s) is not in force at %d in the unfolded "
+                             "part: %r" % (tagname, k_, val_, o.start.t, vi, sid, t,
+                                           None if latest is None else [v for tt, v in cands if tt == latest]))
+                done = True
+                break
+        if done:
+            break
+    # -- proposed open finding C09/signatures-at-start (round 6): the signature in force at the START of a visited segment when no
+    #    signature object starts there is whatever the previously copied segment left behind.  The clause is active only once the
+    #    coordinator has accepted the finding into known_findings.json (this module never edits that file).
+    if _sigstart_active():
+        done = False
+        for vi, (sid, s, e, o_) in enumerate(visits):
+            if vi == 0:
+                continue
+            for (k_, st_) in sorted(set(sigval(o)[:2] for o in osigs), key=repr):
+                mine = [o for o in osigs if sigval(o)[:2] == (k_, st_)]
+                if any(o.start.t == s for o in mine) or any(slots[(k_, st_, o.start.t)] != 1 for o in mine):
+                    continue
+                before = [o for o in mine if o.start.t < s]
+                if not before:
+                    continue
+                val_ = sigval(max(before, key=lambda o: o.start.t))[2]
+                cands = [(tt, v) for tt, v in usigs[(k_, st_)] if tt <= o_]
+                latest = max((tt for tt, _ in cands), default=None)
+                if latest is None or val_ not in [v for tt, v in cands if tt == latest]:
+                    fails.append("signatures-at-start: %s: visit %d (segment %s, from %d) starts at %d of the unfolded part under the %s %r, in the "
+                                 "original %r is in force there" % (tagname, vi, sid, s, o_, k_,
+                                                                    None if latest is None else [v for tt, v in cands if tt == latest], val_))
+                    done = True
+                    break
+            if done:
+                break
     return fails
+
+
+_SIGSTART = None
+
+
+def _sigstart_active():
+    global _SIGSTART
+    if _SIGSTART is None:
+        try:
+            kf = json.load(open(os.path.join(os.path.dirname(os.path.abspath(__file__)), "..", "..", "known_findings.json")))
+            items = kf if isinstance(kf, list) else kf.get("findings", kf.get("entries", []))
+            _SIGSTART = any(isinstance(x, dict) and x.get("signature") == "C09/signatures-at-start" for x in items)
+        except Exception:  # noqa
+            _SIGSTART = False
+    return _SIGSTART
 
 
 def simple_layout(L):
@@ -1468,6 +1584,8 @@ def _evaluate(desc):
     ev = Eval()
     part = build(desc)
     objs = tag(part)
+    # (hypothesis `TimeOrdered` of Props/C09Sig.signature_in_force: the object list sent to the model follows the timeline)
+    unordered = any(a.start.t > b.start.t for a, b in zip(objs[:-1], objs[1:]))
     orig_ids = set(id(o) for o in objs)
     try:
         L = layout_of(part)
@@ -1705,20 +1823,63 @@ def _evaluate(desc):
                         al.append({"label": "deletion", "score_id": r_.choice(tid)})
                 if r_.random() < 0.3:
                     al.append({"label": "deletion", "score_id": "zz-1"})
-                ids = [x["score_id"] for x in al if x["label"] in ("match", "deletion")]
-                cov = [sum(1 for i in ids if i in set(n.id for n in u.notes_tied)) for u in us]
-                best = max(cov)
-                cands = [k for k, c in enumerate(cov) if c == best]
-                ln = [len(us[k].notes_tied) for k in cands]
-                wantk = cands[ln.index(min(ln))]
-                r, e3 = guarded(lambda: S.unfold_part_alignment(part, _copy.deepcopy(al)), 90)
-                sids = [x["score_id"] for x in al if x["label"] in ("match", "deletion")]
-                ev.requests.append("entry align %s %s %s" % (ltok, ptok, W.lst(W.s, sids)))
-                ev.impl.append("err" if e3 is not None else canon_variant(r, objs))
-                if e3 is not None:
-                    ev.oracle.append("alignment: unfold_part_alignment raised %s: %s" % (type(e3).__name__, str(e3)[:80]))
-                elif canon_variant(r, objs) != canon_variant(us[wantk], objs):
-                    ev.oracle.append("alignment: unfold_part_alignment did not return the shortest best-covering variant")
+                # ---- round 6: the alignment as the function reads and WRITES it (Model/UnfoldAlign.lean).  `am` picks what is done to
+                #      the plain alignment above: nothing / only ids the suffix does not occur in (the function then appends it to
+                #      every score_id of the caller's list) / further labels (ornament, trill ... with and without score_id) /
+                #      a counted entry without score_id (KeyError) / no counted entry at all / raw ids of the folded part
+                am = pol.get("am")
+                amode = "plain"
+                if am is not None:
+                    r2_ = _random.Random(int(am * 1e9))
+                    amode = ("plain" if am < 0.35 else "nomark" if am < 0.55 else "labels" if am < 0.72 else "nokey" if am < 0.80
+                             else "noids" if am < 0.86 else "raw")
+                    if amode == "nomark":
+                        al = [x for x in al if "-1" not in x.get("score_id", "")]
+                    elif amode == "labels":
+                        for lb in ("ornament", "trill", "insertion", "Match"):
+                            if r2_.random() < 0.6:
+                                x = {"label": lb, "performance_id": "q%s" % lb}
+                                if r2_.random() < 0.6:
+                                    x["score_id"] = r2_.choice(ids) if ids and r2_.random() < 0.5 else "o%d" % r2_.randrange(9)
+                                al.insert(r2_.randrange(len(al) + 1), x)
+                        for x in al:
+                            if x["label"] == "match" and r2_.random() < 0.3:
+                                x["label"] = "deletion"
+                        if r2_.random() < 0.5:
+                            al = [x for x in al if "-1" not in x.get("score_id", "")]
+                    elif amode == "nokey":
+                        al.insert(r2_.randrange(len(al) + 1), {"label": r2_.choice(["match", "deletion"]), "performance_id": "pk"})
+                    elif amode == "noids":
+                        al = [x for x in al if x["label"] not in ("match", "deletion")]
+                    elif amode == "raw":
+                        raw = [n.id for n in part.notes_tied if n.id is not None]
+                        al = [{"label": "match", "score_id": i, "performance_id": "p%d" % k} for k, i in enumerate(raw) if r2_.random() < 0.7]
+                        if r2_.random() < 0.5:
+                            al = [x for x in al if "-1" not in x["score_id"]]
+                counted = [x for x in al if x["label"] in ("match", "deletion")]
+                valid = bool(counted) and all("score_id" in x for x in counted)
+                ev.info.setdefault("amodes", []).append(amode + ("" if valid else "/invalid") + (
+                    "/rewritten" if valid and not any("-1" in x.get("score_id", "") for x in al) else ""))
+                al_call = _copy.deepcopy(al)
+                r, e3 = guarded(lambda: S.unfold_part_alignment(part, al_call), 90)
+                ev.requests.append("entry alignx %s %s %s" % (ltok, ptok, W.lst(
+                    lambda x: "%s %s" % (W.s(x["label"]), W.opt(W.s, x.get("score_id"))), al)))
+                ev.impl.append("err" if e3 is not None else W.f_tuple(canon_variant(r, objs), W.f_list(
+                    lambda x: "=" + x["score_id"] if "score_id" in x else "-", al_call)))
+                if valid:
+                    # the property's side: judged only for an alignment the function accepts (some counted entry, each with a score id)
+                    ids = [x["score_id"] for x in counted]
+                    cov = [sum(1 for i in ids if i in set(n.id for n in u.notes_tied)) for u in us]
+                    best = max(cov)
+                    cands = [k for k, c in enumerate(cov) if c == best]
+                    ln = [len(us[k].notes_tied) for k in cands]
+                    wantk = cands[ln.index(min(ln))]
+                    if e3 is not None:
+                        ev.oracle.append("alignment: unfold_part_alignment raised %s: %s" % (type(e3).__name__, str(e3)[:80]))
+                    elif canon_variant(r, objs) != canon_variant(us[wantk], objs):
+                        ev.oracle.append("alignment: unfold_part_alignment did not return the shortest best-covering variant")
+                    elif not any(canon_variant(r, objs) == canon_variant(u, objs) for u in us):
+                        ev.oracle.append("alignment: unfold_part_alignment returned a part that is none of iter_unfolded_parts(update_ids=True)")
             continue
         for vi in picks:
             ev.requests.append("var %s %s %s %s %d %s %s" % (ltok, W.b(nr), W.b(ar), W.b(il), vi, W.b(upd), ptok))
@@ -1787,7 +1948,7 @@ def _evaluate(desc):
             what, "; %d Segment objects were added" % nseg if nseg else ""))
     if nontrivial and ev.impl:
         ev.key = "%s|%s" % (ev.impl[0], sorted(set(keyparts)))
-    ev.info = {"nseg": 0 if segtab is None else len(segtab), "layout": {k: len(v) if isinstance(v, list) else v for k, v in L.items()},
+    ev.info = {"amodes": ev.info.get("amodes", []), "unordered": unordered, "nseg": 0 if segtab is None else len(segtab), "layout": {k: len(v) if isinstance(v, list) else v for k, v in L.items()},
                "err": sum(1 for x in ev.impl if x == "err"), "simple": simple is not None, "volta": volta is not None,
                "nav": None if nav is None else nav[0], "fam": fam.split(" ")[0], "blocks": None if blk is None else blk[0]}
     return ev
@@ -1943,6 +2104,9 @@ def distribution(descs, results):
         if info.get("fam") and info["fam"] != "none":
             c["theorem_family_" + info["fam"]] += 1
         c["err_observations"] += info.get("err", 0)
+        c["object_lists_not_in_time_order"] += 1 if info.get("unordered") else 0
+        for am_ in info.get("amodes") or []:
+            c["alignment_" + am_] += 1
         ns = info.get("nseg", 0)
         nseg[ns if ns <= 12 else "13-26" if ns <= 26 else "27-60" if ns <= 60 else "61+"] += 1
         if info.get("blocks"):
